@@ -304,3 +304,9 @@ From OV Require Import Lex.Pins_Lexer Gen.LexerGen.
 Theorem C05_pin_fence :
   lexer_fence_pattern = pinned_lexer_fence_pattern /\ lexer_token_patterns = pinned_lexer_token_patterns.
 Proof. exact (conj pin_lexer_fence_pattern pin_lexer_token_patterns). Qed.
+
+(* the lexer, parser and emitter functions are, text for text, the ones the hand-written models were validated against
+   (one digest per function, comments and docstrings excluded; harness/translate/srcdigest_t.py) *)
+From OV Require Import Gen.SrcDigestGen Syn.Pins_SrcDigest.
+Theorem C05_pin_source_text : src_lexer_pinned /\ src_parser_pinned /\ src_emitter_pinned.
+Proof. exact (conj src_lexer_pinned_ok (conj src_parser_pinned_ok src_emitter_pinned_ok)). Qed.
